@@ -238,6 +238,7 @@ structure RS where
   tbCount : Nat               -- next value of `_traceback_id_gens['traceback']`
   attrs   : List (Nat × Nat)
   nOnExc  : Nat
+  execd   : List Stage        -- ghost: the stages executed so far, in order
   ran     : List Ran          -- ghost
   regd    : List Ran          -- ghost: every cleanup ever registered
   plain   : List DName        -- ghost: names set by plain `addDetail`
@@ -307,7 +308,7 @@ def runTerm (t : Term) (s : RS) : RS × Option (List Exc × Exc) :=
 `deco` = wrapped by `@expectedFailure` (only ever true for the test method). Returns the new state and
 whether the stage completed without exception. -/
 def runStage (st : Stage) (deco : Bool) (s : RS) : RS × Bool :=
-  let s0 := { s with log := s.log ++ [.stage st.id], clock := s.clock + 1 }
+  let s0 := { s with log := s.log ++ [.stage st.id], clock := s.clock + 1, execd := s.execd ++ [st] }
   let s1 := runActs st.acts s0
   let (s2, r) := runTerm st.term s1
   if deco then
@@ -366,7 +367,7 @@ theorem runTerm_stack (t : Term) (s : RS) : (runTerm t s).1.stack = s.stack := b
 
 theorem runStage_stack (st : Stage) (deco : Bool) (s : RS) :
     (runStage st deco s).1.stack =
-      (runActs st.acts { s with log := s.log ++ [.stage st.id], clock := s.clock + 1 }).stack := by
+      (runActs st.acts { s with log := s.log ++ [.stage st.id], clock := s.clock + 1, execd := s.execd ++ [st] }).stack := by
   simp only [runStage]
   generalize runActs st.acts _ = s1
   have ht := runTerm_stack st.term s1
@@ -390,7 +391,7 @@ theorem runCl_stack_le (c : Cl) (s : RS) : stackSize (runCl c s).stack + 1 ≤ c
   cases c with
   | stage st =>
     simp only [runCl, runStage_stack]
-    have := runActs_stack_le st.acts { s with log := s.log ++ [.stage st.id], clock := s.clock + 1 }
+    have := runActs_stack_le st.acts { s with log := s.log ++ [.stage st.id], clock := s.clock + 1, execd := s.execd ++ [st] }
     cases st with
     | mk i acts t => simp [Cl.size, Stage.size, Stage.acts] at this ⊢; omega
   | gather fid ds => simp [runCl, Cl.size]; omega
@@ -411,7 +412,7 @@ def forcedFailure : Exc := ⟨.failure, 0⟩
 
 def initRS (p : Program) (ff0 : Bool) : RS :=
   { log := [], clock := 0, stack := [], excs := [], ff := ff0, details := [], tbCount := 0,
-    attrs := p.attrs0, nOnExc := p.nOnExc, ran := [], regd := [], plain := [], clobbered := false }
+    attrs := p.attrs0, nOnExc := p.nOnExc, execd := [], ran := [], regd := [], plain := [], clobbered := false }
 
 /-- `_run_core` after the skip-decorator test; returns the state and whether `addSuccess` is due -/
 def runCore (p : Program) (ff0 : Bool) : RS × Bool :=
